@@ -30,6 +30,34 @@ Theorem storage_transparent : forall (T : Type) (src : Z * Z * Z -> T) (N n1 n2 
 Proof. exact Matsubara4Proofs.storage_transparent. Qed.
 Print Assumptions storage_transparent.
 
+(** Refill of an existing container: Vertex4::compute may be called again on the same
+    object with a different window size.  [fill_from] starts from the previous storage st0
+    (only the two std::vector resizes and the per-block matrix resizes discard anything).
+    No well-formedness condition on st0 is needed: st0 is arbitrary, in particular it may
+    have been filled for any other window size and from any other source. *)
+Theorem fill_from_in_bounds : forall (T : Type) (src : Z * Z * Z -> T) (st0 : storage T) (N : Z),
+  0 <= N -> exists st, fill_from T src st0 N = Done st.
+Proof. exact Matsubara4Proofs.fill_from_in_bounds. Qed.
+Print Assumptions fill_from_in_bounds.
+
+Theorem refill_window :
+  forall (T : Type) (src src' : Z * Z * Z -> T) (st0 : storage T) (N : Z) st (n1 n2 n3 : Z),
+  0 <= N -> fill_from T src st0 N = Done st ->
+  lookup T src' st N n1 n2 n3 =
+  Done (if in_window N n1 n2 n3 then src (n1, n2, n3) else src' (n1, n2, n3)).
+Proof. exact Matsubara4Proofs.refill_window. Qed.
+Print Assumptions refill_window.
+
+(** History form: any sequence of non-negative window sizes on one container (the empty
+    sequence, i.e. a freshly constructed container read with window 0, included); reading
+    with the last window size gives exactly the direct value, for every triple. *)
+Theorem refill_transparent : forall (T : Type) (src : Z * Z * Z -> T) (Ns : list Z),
+  Forall (fun N => 0 <= N) Ns ->
+  exists st, refill T src Ns = Done st /\
+    forall n1 n2 n3, lookup T src st (last Ns 0) n1 n2 n3 = Done (src (n1, n2, n3)).
+Proof. exact Matsubara4Proofs.refill_transparent. Qed.
+Print Assumptions refill_transparent.
+
 (** Vertex4::value (generated from the source) is chi minus the documented chi^0,
     over any commutative ring of values. *)
 Theorem vertex_is_chi_minus_chi0 :
